@@ -61,6 +61,7 @@ def FTest.holds : FTest → T → Bool
 
 def chooseAct : List (FTest × FAct) → T → Option FAct
   | [], _ => none
+  | (.unknown, _) :: _, _ => some .unknown        -- a test the translator could not read: nothing is known from here on
   | (t, a) :: rest, x => if t.holds x then some a else chooseAct rest x
 
 /-- an answer no model function gives (a case where a suite is expected to stay and vice versa does not arise) -/
